@@ -534,49 +534,107 @@ static uint64_t snapshot(const string &kind, Target *t, const UID &uid) {
   return d.h >> 4;
 }
 
+// ---- request outlines: "[dt:][depth@]request".  A request of depth d+1 is sent from INSIDE the completion
+// callback of the closest preceding request of depth d (re-entrancy, what a queueing controller does);
+// listed in pre-order, which is the order in which a sequential model sees them.
+struct ONode {
+  Req q; long long dt_ms; int depth; Capture cap; vector<size_t> kids;
+  uint64_t sb, sa; bool sa_taken, sent;
+  ONode() : dt_ms(0), depth(0), sb(0), sa(0), sa_taken(false), sent(false) {}
+};
+struct Outline;
+struct OCb { Outline *o; size_t i; void Done(RDMReply *r); };
+struct Outline {
+  vector<ONode> n; vector<size_t> roots;
+  RDMControllerInterface *dev; long long default_dt_ms;
+  bool snap; string kind; Target *t; UID uid;
+  Outline() : dev(NULL), default_dt_ms(0), snap(false), t(NULL), uid(0, 0) {}
+  void Parse(const vector<string> &steps) {
+    vector<size_t> stack;   // index of the last node at each depth
+    n.resize(steps.size());
+    for (size_t i = 0; i < steps.size(); i++) {
+      string s = steps[i];
+      n[i].dt_ms = default_dt_ms;
+      size_t c = s.find(':');
+      if (c != string::npos) { n[i].dt_ms = vh::num(s.substr(0, c)); s = s.substr(c + 1); }
+      size_t at = s.find('@');
+      int d = 0;
+      if (at != string::npos) { d = vh::num(s.substr(0, at)); s = s.substr(at + 1); }
+      if (d > static_cast<int>(stack.size())) d = stack.size();
+      n[i].depth = d;
+      n[i].q = req_p(s);
+      stack.resize(d);
+      if (d == 0) roots.push_back(i); else n[stack[d - 1]].kids.push_back(i);
+      stack.push_back(i);
+    }
+  }
+  bool IsSet(size_t i) const { return n[i].q.cc == RDMCommand::SET_COMMAND; }
+  uint64_t Snap();
+  void Run(size_t i) {
+    n[i].sent = true;
+    g_now_ns += 1000000LL * n[i].dt_ms;
+    if (snap && IsSet(i)) n[i].sb = Snap();
+    OCb *cb = new OCb();     // kept alive: a second completion must not touch freed memory of ours
+    cb->o = this; cb->i = i;
+    dev->SendRDMRequest(mk(n[i].q), ola::NewSingleCallback(cb, &OCb::Done));
+    if (snap && IsSet(i) && !n[i].sa_taken) { n[i].sa = Snap(); n[i].sa_taken = true; }
+  }
+  void RunAll() { for (size_t r = 0; r < roots.size(); r++) Run(roots[r]); }
+};
+void OCb::Done(RDMReply *r) {
+  ONode &nd = o->n[i];
+  nd.cap.Done(r);
+  if (nd.cap.replies.size() != 1) return;
+  // the request is complete now: what is readable at this moment is the "after" state
+  if (o->snap && o->IsSet(i)) { nd.sa = o->Snap(); nd.sa_taken = true; }
+  for (size_t k = 0; k < nd.kids.size(); k++) o->Run(nd.kids[k]);
+}
+uint64_t Outline::Snap() { return snapshot(kind, t, uid); }
+
 static string do_sweep(const vector<string> &a) {
   const string &kind = a[1];
   UID uid = uid_p(a[2]);
   Target t;
   if (!make_target(kind, uid, &t)) return "bad-kind";
   if (checker_ask("K " + kind + " " + t.spec) != "ok") return "n=0;chk=nochecker";
-  vector<string> rs = vh::split(a[3], '/');
+  Outline o;
+  o.dev = t.dev.get(); o.default_dt_ms = 150; o.snap = true; o.kind = kind; o.t = &t; o.uid = uid;
+  o.Parse(vh::split(a[3], '/'));
+  o.RunAll();
   string bad;
-  for (size_t i = 0; i < rs.size(); i++) {
-    Req q = req_p(rs[i]);
-    g_now_ns += 150LL * 1000000LL;
-    uint64_t sb = 0, sa = 0;
-    bool is_set = q.cc == RDMCommand::SET_COMMAND;
-    if (is_set) sb = snapshot(kind, &t, uid);
-    Capture c;
-    send(t.dev.get(), q, &c);
-    if (is_set) sa = snapshot(kind, &t, uid);
-    string verdict = checker_ask("T " + kind + " " + a[2] + " " + q.text + " " + c.Joined() + " " +
-                                 vh::str(sb) + " " + vh::str(sa));
+  for (size_t i = 0; i < o.n.size(); i++) {
+    ONode &nd = o.n[i];
+    string verdict = nd.sent ? checker_ask("T " + kind + " " + a[2] + " " + nd.q.text + " " + nd.cap.Joined() + " " +
+                                           vh::str(nd.sb) + " " + vh::str(nd.sa))
+                             : string("unsent");   // its parent never completed
     if (verdict != "0") {
       if (!bad.empty()) bad += ",";
       bad += vh::str(i) + ":" + verdict;
-      fprintf(stderr, "C13 sweep %s: request %zu [%s] -> [%s] sb=%llu sa=%llu verdict %s\n", kind.c_str(), i,
-              q.text.c_str(), c.Joined().c_str(), (unsigned long long) sb, (unsigned long long) sa, verdict.c_str());
+      fprintf(stderr, "C13 sweep %s: request %zu depth %d [%s] -> [%s] sb=%llu sa=%llu verdict %s\n", kind.c_str(), i, nd.depth,
+              nd.q.text.c_str(), nd.cap.Joined().c_str(), (unsigned long long) nd.sb, (unsigned long long) nd.sa, verdict.c_str());
     }
   }
-  return "n=" + vh::str(rs.size()) + ";chk=" + (bad.empty() ? "ok" : bad);
+  return "n=" + vh::str(o.n.size()) + ";chk=" + (bad.empty() ? "ok" : bad);
+}
+
+static string outline_trace(RDMControllerInterface *dev, const string &seq, long long default_dt_ms) {
+  Outline o;
+  o.dev = dev; o.default_dt_ms = default_dt_ms;
+  o.Parse(vh::split(seq, '/'));
+  o.RunAll();
+  string t;
+  for (size_t i = 0; i < o.n.size(); i++) {
+    if (i) t += "/";
+    t += o.n[i].sent ? o.n[i].cap.Joined() : string("unsent");
+  }
+  return t;
 }
 
 // ================= AckTimerResponder against its state-machine model =================
 static string do_ackt(const vector<string> &a) {
   UID uid = uid_p(a[1]);
   AckTimerResponder dev(uid);
-  vector<string> steps = vh::split(a[6], '/');
-  string t;
-  for (size_t i = 0; i < steps.size(); i++) {
-    size_t c = steps[i].find(':');
-    g_now_ns += 1000000LL * static_cast<long long>(vh::num(steps[i].substr(0, c)));
-    Capture cap;
-    send(&dev, req_p(steps[i].substr(c + 1)), &cap);
-    if (i) t += "/";
-    t += cap.Joined();
-  }
+  string t = outline_trace(&dev, a[6], 0);
   return "t=" + t + ";qc=" + vh::str(static_cast<int>(dev.QueuedMessageCount()));
 }
 
@@ -593,22 +651,14 @@ static string do_resp(const vector<string> &a) {
     vector<unsigned long long> init;
     if (a[7] != "-") { vector<string> p = vh::split(a[7], ','); for (size_t i = 0; i < p.size(); i++) init.push_back(vh::num(p[i])); }
     make_test_sensors(init, &dev.m_sensors);
-    for (size_t i = 0; i < steps.size(); i++) {
-      Capture cap; send(&dev, req_p(steps[i]), &cap);
-      if (i) t += "/";
-      t += cap.Joined();
-    }
+    t = outline_trace(&dev, a[8], 0);
     return "t=" + t + ";a=" + sensors_dyn_s(dev.m_sensors) + ";id=" + (dev.m_identify_mode ? "1" : "0");
   }
   if (kind == "moving") {
     vector<string> in = vh::split(a[7], ',');
     g_fake_time = static_cast<time_t>(vh::num(in[1]));
     MovingLightResponder dev(uid);
-    for (size_t i = 0; i < steps.size(); i++) {
-      Capture cap; send(&dev, req_p(steps[i]), &cap);
-      if (i) t += "/";
-      t += cap.Joined();
-    }
+    t = outline_trace(&dev, a[8], 0);
     g_fake_time = 0;
     std::ostringstream o;
     o << dev.m_start_address << "," << static_cast<int>(dev.m_personality_manager.m_active_personality) << ","
@@ -622,11 +672,7 @@ static string do_resp(const vector<string> &a) {
   if (kind.compare(0, 6, "dimmer") == 0) {
     int n = vh::num(kind.substr(6));
     DimmerResponder dev(uid, n);
-    for (size_t i = 0; i < steps.size(); i++) {
-      Capture cap; send(&dev, req_p(steps[i]), &cap);
-      if (i) t += "/";
-      t += cap.Joined();
-    }
+    t = outline_trace(&dev, a[8], 0);
     string st;
     for (std::map<uint16_t, DimmerSubDevice*>::iterator it = dev.m_sub_devices.begin(); it != dev.m_sub_devices.end(); ++it) {
       DimmerSubDevice *d = it->second;
